@@ -95,8 +95,32 @@ pub fn suites(name: &str) -> Vec<Suite> {
             "expire" => {
                 out.push(Suite {
                     cfg: cfg(1, 3, b, m, h, ovf, 1),
-                    prefix: vec![Op::Sc(0, None, None), pc(0), pc(1), Op::Sn(0), Op::Sn(1)],
+                    prefix: vec![Op::Sc(0, None, None), pc(0), pc(1), Op::Su(0), Op::Sn(0), Op::Sn(1)],
                     alpha: vec![Op::Sn(0), Op::Sn(1), Op::Pd(0), Op::Pd(1), pc(0), pc(2), Op::Rx(0), Op::Rd(0, 0), Op::RdNewest(0), Op::Hs(0)],
+                });
+            }
+            // the subscriber acts inside the publisher's blocking_send (between its reclaim and its push):
+            // full buffer + full borrow, then the handler drops / receives before it answers
+            "window" => {
+                if ovf { continue; }
+                for script in ["DRrd", "Drd", "DRrDRrd"] {
+                    let mut prefix = vec![Op::Pc(0, l, true, script.to_string()), Op::Sc(0, None, None)];
+                    for _ in 0..b { prefix.push(Op::Sn(0)); }
+                    for _ in 0..m { prefix.push(Op::Rx(0)); prefix.push(Op::Sn(0)); }
+                    out.push(Suite {
+                        cfg: cfg(1, 1, b, m, 0, false, 2),
+                        prefix,
+                        alpha: vec![Op::Sn(0), Op::Rx(0), Op::Rd(0, 0), Op::RdNewest(0), Op::Ex(0)],
+                    });
+                }
+            }
+            // publishers (also re-created in the same slot) vanish with undelivered samples before the first
+            // receive, the subscriber having seen each of them; then the subscriber drains
+            "drain" => {
+                out.push(Suite {
+                    cfg: cfg(1, 2, b.max(2), m, 0, ovf, 3),
+                    prefix: vec![Op::Sc(0, None, None)],
+                    alpha: vec![pc(0), pc(1), Op::Su(0), Op::Sn(0), Op::Sn(1), Op::Pd(0), Op::Pd(1), Op::Rx(0), Op::Rd(0, 0)],
                 });
             }
             o => panic!("unknown suite {}", o),
@@ -146,7 +170,7 @@ pub fn exhaustive(name: &str, len: usize, shard: u64, nshards: u64, run: &mut dy
 }
 
 const HANDLERS_DISCARD: [&str; 6] = ["-", "d", "f", "o", "ro", "rd"];
-const HANDLERS_RETRY: [&str; 5] = ["d", "f", "rd", "rf", "rrd"];
+const HANDLERS_RETRY: [&str; 8] = ["d", "f", "rd", "rf", "rrd", "DRrd", "Drd", "DRrDRrd"];
 
 pub struct RandomCase {
     pub cfg: Cfg,
@@ -155,6 +179,7 @@ pub struct RandomCase {
     pub l: [usize; 4],
     pub retry: [bool; 4],
     pub hs: [&'static str; 4],
+    pub created_pub: std::cell::Cell<bool>,
 }
 
 pub fn random_case(rng: &mut Rng, maxlen: u64, big: bool) -> RandomCase {
@@ -173,11 +198,11 @@ pub fn random_case(rng: &mut Rng, maxlen: u64, big: bool) -> RandomCase {
     for i in 0..4 {
         l[i] = 1 + rng.below(2) as usize;
         retry[i] = !ovf && rng.below(3) == 0 || ovf && rng.below(2) == 0;
-        hs[i] = if retry[i] && !ovf { HANDLERS_RETRY[rng.below(5) as usize] }
+        hs[i] = if retry[i] && !ovf { HANDLERS_RETRY[rng.below(8) as usize] }
                 else if retry[i] { ["-", "d", "rd", "f", "o"][rng.below(5) as usize] }   // with overflow nothing ever waits
                 else { HANDLERS_DISCARD[rng.below(6) as usize] };
     }
-    RandomCase { cfg: cfg(s, p, b, m, h, ovf, e), mood: rng.below(4), len: maxlen / 4 + rng.below(maxlen - maxlen / 4 + 1), l, retry, hs }
+    RandomCase { cfg: cfg(s, p, b, m, h, ovf, e), mood: rng.below(4), len: maxlen / 4 + rng.below(maxlen - maxlen / 4 + 1), l, retry, hs, created_pub: std::cell::Cell::new(false) }
 }
 
 /// next operation of a random case, chosen from what is applicable in the harness' current state
@@ -190,6 +215,12 @@ pub fn random_next(rc: &RandomCase, rng: &mut Rng, v: &View) -> Op {
     let dead_p: Vec<usize> = (0..nps).filter(|i| !v.pubs[*i]).collect();
     let dead_s: Vec<usize> = (0..nss).filter(|i| !v.subs[*i]).collect();
     let pick = |rng: &mut Rng, l: &Vec<usize>| l[rng.below(l.len() as u64) as usize];
+    // mostly, a subscriber looks at the registry soon after a publisher appeared (otherwise what that publisher
+    // sends before it vanishes falls into the known 'not yet connected' loss class)
+    if rc.created_pub.replace(false) && !live_s.is_empty() && rng.below(10) < 7 {
+        let s = pick(rng, &live_s);
+        return if rng.below(2) == 0 { Op::Su(s) } else { Op::Hs(s) };
+    }
     // weights per mood: 0 = saturate, 1 = churn, 2 = mixed, 3 = drain-heavy
     //                     create pub, create sub, drop pub, drop sub, sn, ln, snd, ld, wr, rx, rd, hs, pu, su, ex
     let w: [u64; 15] = match rc.mood {
@@ -203,7 +234,7 @@ pub fn random_next(rc: &RandomCase, rng: &mut Rng, v: &View) -> Op {
         let mut k = 0;
         while r >= w[k] { r -= w[k]; k += 1; }
         let op = match k {
-            0 if !dead_p.is_empty() => { let s = pick(rng, &dead_p); Some(Op::Pc(s, rc.l[s], rc.retry[s], rc.hs[s].to_string())) }
+            0 if !dead_p.is_empty() => { let s = pick(rng, &dead_p); rc.created_pub.set(true); Some(Op::Pc(s, rc.l[s], rc.retry[s], rc.hs[s].to_string())) }
             1 if !dead_s.is_empty() => {
                 let s = pick(rng, &dead_s);
                 // mostly the default (= maximal) buffer: saturation needs it; sometimes smaller / invalid requests
